@@ -44,7 +44,13 @@ class QInteger(QToken):
 
     @staticmethod
     def parse(string: str, namespace: dict) -> QToken:
-        return QInteger(int(string))
+        try:
+            return QInteger(int(string))
+        except ValueError:
+            # e.g. more digits than Python converts (sys.get_int_max_str_digits)
+            raise QueryParseException(
+                "Invalid or too long integer literal"
+            ) from None
 
     @staticmethod
     def check(string: str):
@@ -427,8 +433,11 @@ def query(
         statement = statement.strip()
         if statement:
             logger.debug("Parsing: " + statement)
-            var, val = parse(statement, namespace)
-            interpret(var, val, namespace, datastore)
+            try:
+                var, val = parse(statement, namespace)
+                interpret(var, val, namespace, datastore)
+            except RecursionError:
+                raise QueryParseException("Query is nested too deeply") from None
 
     result = get_return(namespace)
     return result
